@@ -121,6 +121,15 @@ Fpack(n, sel) ==
        Log("Fpack", [n |-> n, sel |-> sel, fields |-> Buffer(rs, sel, NOIL)], [ret |-> 0, packed |-> Buffer(rs, sel, FULL)])
     /\ UNCHANGED <<st, schema, recs, pos, mode, rsel, fil, wc>>
 
+\* VSsetinterlace on the attached vdata: the storage interlace can only be chosen while the table is empty
+\* (and through a write attachment); afterwards the call is refused and nothing changes
+SetIl(il) ==
+    /\ st = "attached" /\ il \in {FULL, NOIL}
+    /\ IF recs = <<>> /\ mode = "w"
+       THEN /\ fil' = il /\ Log("SetIl", [il |-> il], [ret |-> 0])
+       ELSE /\ UNCHANGED fil /\ Log("SetIl", [il |-> il], [ret |-> FAIL])
+    /\ UNCHANGED <<st, schema, recs, pos, mode, rsel, wc>>
+
 \* an unrelated element written after the vdata's data: the next append promotes it to linked blocks
 Bump ==
     /\ st = "attached"
@@ -151,6 +160,7 @@ Next ==
     \/ \E n \in ReadNs, bil \in {FULL, NOIL} : Read(n, bil)
     \/ \E n \in {2}, sel \in Perms(NF) : Fpack(n, sel)
     \/ Inquire \/ Bump \/ Detach
+    \/ \E il \in {FULL, NOIL} : SetIl(il)
     \/ \E m \in {"r", "w"}, ro \in BOOLEAN : Attach(m, ro)
 Spec == Init /\ [][Next]_vars
 
